@@ -68,6 +68,7 @@ def plan(tier, seed, kf_ids):
             # (a negative factor other than the minimum has a dense bit pattern: -1 ulp did not finish in 9 min)
             for (k, neg) in [(0, False), (w // 2, False)] + ([(w - 2, False), (w - 1, True)] if s == "I" else [(w - 1, False)]):
                 jobs.append(A.mul_pow2("c01", s, w, f, k, neg, timeout=900))
+    c.interleave(jobs)
     return {
         "engine_m": ["mul128", "widen"],
         "feature": "c01",
